@@ -84,7 +84,8 @@ def analyse(crate, fn, requires, summaries=None):
             path.events.append(("rstate", "unknown"))
         return None
 
-    S = PeekSim([crate], hooks={"call": hook}, inline=lambda a, b: b.path in INLINE, max_paths=60000, max_depth=4)
+    S = PeekSim([crate], hooks={"call": hook}, inline=lambda a, b: b.path in INLINE or (b.crate == crate.name and lex.scalar_fn(b)),
+                max_paths=60000, max_depth=4)
     summary = {}
     for p in S.run(fn):
         if p.end != "return":
